@@ -5,7 +5,10 @@
                     with libm's fmod computed exactly from the operands' integer mantissas;
    remainder_F_old  is the algorithm before commit 0cf4f10 (kept as the record of finding F10);
    clamp_F          mirrors raysect.core.math.cython.utility.clamp (used by clamp.pyx);
-   radius_F         mirrors sqrt(x*x + y*y) of mappers.pyx:245,304 and cylindrical.pyx:67,124.
+   radius_F_old     is sqrt(x*x + y*y), the radius of mappers.pyx / cylindrical.pyx before commit efb2198 (kept as
+                    the record of the overflow/underflow finding); the code now calls libm hypot(x, y), which is not
+                    correctly rounded and therefore has no bit-exact model: the comparator accurate_radius of
+                    Model/C13_Check.v states what is required of it.
    PrimFloat add/mul/sqrt/next_down are the IEEE-754 binary64 round-to-nearest-even operations. *)
 From Coq Require Import ZArith Bool List.
 From Coq Require Import Uint63 PrimFloat SpecFloat FloatOps.
@@ -92,8 +95,8 @@ Definition in_period_F (r p : float) : bool := (zero <=? r)%float && (r <? p)%fl
 Definition clamp_F (v lo hi : float) : float :=
   if (v <? lo)%float then lo else if (hi <? v)%float then hi else v.
 
-(* sqrt(x*x + y*y), three correctly rounded operations *)
-Definition radius_F (x y : float) : float := sqrt (x * x + y * y)%float.
+(* sqrt(x*x + y*y), three correctly rounded operations: the radius before commit efb2198 *)
+Definition radius_F_old (x y : float) : float := sqrt (x * x + y * y)%float.
 
 (* ---- exact rational value of a finite float (for statements that relate floats to Q) ---- *)
 From Coq Require Import QArith.
